@@ -318,4 +318,6 @@ func TestVerifC13(t *testing.T) {
 	}
 }
 
-func randScalarIdx(seed uint64, i int) *big.Int { return randScalar(hk.NewRNG(seed, caseID("c13k", i))) }
+func randScalarIdx(seed uint64, i int) *big.Int {
+	return randScalar(hk.NewRNG(seed, caseID("c13k", i)))
+}
